@@ -12,7 +12,10 @@ This private submodule is *not* intended for importation by downstream callers.
 '''
 
 # ....................{ IMPORTS                            }....................
-from beartype.roar import BeartypeConfShellVarException
+from beartype.roar import (
+    BeartypeConfParamException,
+    BeartypeConfShellVarException,
+)
 from beartype.roar._roarwarn import BeartypeConfShellVarWarning
 from beartype._data.func.datafuncarg import ARG_VALUE_UNPASSED
 from beartype._data.typing.datatyping import (
@@ -68,6 +71,24 @@ def get_is_color(is_color: BoolTristateUnpassable) -> BoolTristate:  # pyright: 
         set to an unrecognized string (i.e., neither ``"True"``, ``"False"``,
         nor ``"None"``).
     '''
+
+    # If the caller explicitly passed an invalid "is_color" parameter, raise an
+    # exception. Note that this parameter is intentionally validated *BEFORE*
+    # being possibly overridden below by the "${BEARTYPE_IS_COLOR}" environment
+    # variable, ensuring that invalid values are rejected uniformly regardless
+    # of whether the caller set that variable.
+    if not (
+        is_color == ARG_VALUE_UNPASSED or
+        is_color is None or
+        isinstance(is_color, bool)
+    ):
+        raise BeartypeConfParamException(
+            f'Beartype configuration parameter "is_color" '
+            f'value {repr(is_color)} not tri-state boolean '
+            f'(i.e., "True", "False", or "None").'
+        )
+    # Else, the caller either passed a valid "is_color" parameter or did *NOT*
+    # explicitly pass this parameter.
 
     # String value of the external shell environment variable
     # "${BEARTYPE_IS_COLOR}" globally overriding the passed "is_color" parameter
